@@ -140,7 +140,7 @@ Proof.
   - unfold cassign_pos. destruct (f_fix F); cbn [flat_map unms_ar unms_r]; [apply subseq_nil_l|rewrite app_nil_r; apply subseq_refl].
   - unfold cassign_kw. destruct (alookup k fs) as [v|].
     + destruct (is_default ct c k v).
-      * destruct (is_unm t); [cbn [flat_map unms_ar unms_r]; rewrite app_nil_r; apply subseq_refl|].
+      * destruct (has_unm t); [cbn [flat_map unms_ar unms_r]; rewrite app_nil_r; apply subseq_refl|].
         destruct (val_eqb (eval ct t) v); [destruct (f_update F)|destruct (f_fix F)]; cbn [flat_map unms_ar unms_r]; try apply subseq_nil_l; rewrite app_nil_r; apply subseq_refl.
       * cbn [flat_map unms_ar]. rewrite app_nil_r. apply Ha. reflexivity.
     + destruct (f_fix F); cbn [flat_map unms_ar unms_r]; [apply subseq_nil_l|rewrite app_nil_r; apply subseq_refl].
@@ -301,7 +301,7 @@ Proof.
   { apply IH; [exact HF|exact HU|]. intros k' o' n' Hin. apply (Ha k'). right; exact Hin. }
   destruct (alookup k fs) as [v|].
   - destruct (is_default ct c k v).
-    + destruct (is_unm t); [|destruct (val_eqb (eval ct t) v)]; cbn [app verbatim_args verbatim]; rewrite Hr; reflexivity.
+    + destruct (has_unm t); [|destruct (val_eqb (eval ct t) v)]; cbn [app verbatim_args verbatim]; rewrite Hr; reflexivity.
     + cbn [app verbatim_args]. rewrite (Ha k t v) by (left; reflexivity). rewrite Hr. reflexivity.
   - cbn [app verbatim_args verbatim]. rewrite Hr. reflexivity.
 Qed.
